@@ -396,14 +396,16 @@ fn finish(w: World, out: &mut String) {
 /// partly busy), 1-3 single-variant single-node request classes, up to 8 priority levels.
 fn gen_trace(id: u64, rng: &mut Rng, tier: &str, mode: &str, out: &mut String) {
     let wide = mode == "wide";
-    let n_res = match rng.below(10) {
+    // candidate exact class of C15: one worker, one resource kind (cpus), two request classes
+    let exact = mode == "exact";
+    let n_res = if exact { 1 } else { match rng.below(10) {
         0..=4 => 1,
         5..=8 => 2,
         _ => 3,
-    };
+    } };
     let mut w = World::new(n_res);
     header(&mut w.out, id, n_res, mode);
-    let n_workers = rng.range(1, 3) as u32;
+    let n_workers = if exact { 1 } else { rng.range(1, 3) as u32 };
     let big = tier == "thorough" && rng.chance(1, 4);
     let max_cpus = if big { 16 } else { 8 };
     let mut wunits: Vec<Vec<u32>> = Vec::new();
@@ -417,7 +419,7 @@ fn gen_trace(id: u64, rng: &mut Rng, tier: &str, mode: &str, out: &mut String) {
         w.exec(&Op::AddW { id, units: units.clone() });
         wunits.push(units);
     }
-    let n_classes = rng.range(1, 3) as u32;
+    let n_classes = if exact { 2 } else { rng.range(1, 3) as u32 };
     let mut classes: Vec<Vec<(u32, u64)>> = Vec::new();
     let mut guard = 0;
     while (classes.len() as u32) < n_classes && guard < 20 {
